@@ -17,3 +17,6 @@ func RunBubble(t *testing.T, f func()) (verdict, detail string) {
 }
 
 func BubbleSleep(d time.Duration) {}
+
+// Stragglers is only meaningful inside a bubble.
+func Stragglers(pkg string) (int, string) { return 0, "" }
